@@ -197,6 +197,14 @@ def correspondence(ctx):
         ident = 'C04-kM-zero-after-plyts-reset' if c.get('identity') == 'no-rebuild-after-plyts-reset' else None
         if bad and ctx.violation('C04 fails on the implementation: calc_kM ' + bad, dict(case=c, derived='redefinition'), identity=ident):
             return
+    # the mass matrix of a stiffened bay belongs to the bay's CURRENT definition too (density of all skin panels / of one panel edited after a first
+    # evaluation; stream shared with C13)
+    from tools.props import C13
+    for t in (0, 3, 4, 7)[:ctx.scale(2, 4)]:
+        desc, bad = C13.bay_redefinition(ctx, rng, t)
+        ctx.evaluations += 1
+        if bad and ctx.violation('C04 fails on the implementation: ' + bad, dict(case=desc, derived='bay redefinition')):
+            return
     ctx.cov['input_distribution'] = dist
     ctx.cov['translated_kernels'] = ['%s.%s' % (m, k) for m in ir for k in KERNELS]
 
